@@ -25,6 +25,7 @@ F = [
  fixed('C09', 'C09.5', 'define:name-validated', '637f62b', 'names the recogniser cannot produce are registered and never substituted', '-D X=5 / .byte X', 'unresolved label', 'rejected name (or 05)'),
  fixed('C10', 'C10.1', 'composite:size=sum-of-steps', '56b9fe4', 'macro flattens its steps into one bit string', 'macro of two 5-bit g5', 'ad 40', 'a8 a8'),
  fixed('C10', 'C10.1', 'composite:bytes-per-step', '56b9fe4', 'relative operands of later macro steps measured from the macro address', 'jj target = nop + jr target at 0', 'offset 00', 'ff'),
+ fixed('C10', 'C10.2', 'accessor:full-operand-text:IndirectNumericOperand.parse_operand:delegated', 'a16f1ab', 'indirect numeric operands record only the text inside the brackets, so @OP(n) reproduces a different operand', 'macro ldm [5] with template `ld @OP(0)`', 'b2 05 (immediate variant)', 'a1 05 (same as ld [5])'),
  fixed('C12', 'C12.3', 'width:upper', 'f5cdb79', 'overflow gate at byte, not bit, granularity', 't3 200 (3-bit field)', 'accepted', 'rejected'),
  fixed('C13', 'C13.5', 'register-guard:NumericEnumerationOperand', 'e15cca4', 'numeric enumeration operand accepts register names', 'set {numeric_enumeration, register a}: en a', 'error', 'register form'),
  fixed('C14', 'C14.1', 'loop:assembler.engine.Assembler.assemble_bytecode:addr <= (max_generated_address if self._binary_end', 'd576ef1', 'image loop stalls on a zero-length line', '.byte 1 / .fill 0, 0', 'hang', 'terminates'),
